@@ -493,3 +493,179 @@ def c14(M, ctx):
         if len(tids) >= 2:
             ctx.cover("component-with-two-tasks")
     ctx.nontrivial = len(M.comps) > 0 and len(full_steps(M)) >= 2
+
+
+# ----------------------------------------------------------------------------------------------- C06
+def can_accept_worker(M, S, ti, w):
+    """Task ti (live snapshot S) can still take worker w as far as solo rules go."""
+    if any(M.wspec[x].get("solo") for x in S["talloc_w"][ti]):
+        return False
+    if any(M.fspec[x].get("solo") for x in S["talloc_f"][ti]):
+        return False
+    if M.wspec[w].get("solo") and len(S["talloc_w"][ti]) > 0:
+        return False
+    return True
+
+
+def can_accept_pair(M, S, ti, w, f):
+    if not can_accept_worker(M, S, ti, w):
+        return False
+    if M.fspec[f].get("solo") and len(S["talloc_f"][ti]) > 0:
+        return False
+    return True
+
+
+def c06(M, ctx):
+    n = len(M.tasks)
+    sf = started_flags(M)
+    for k, st in enumerate(M.obs.steps):
+        U = st["updated"]
+        # (a) start gates satisfied => not NONE
+        for b in range(n):
+            if U["tstate"][b] != NONE:
+                continue
+            gates = True
+            for (a, bb, kd) in M.edges:
+                if bb != b:
+                    continue
+                if kd == 0 and U["tstate"][a] != FINISHED:
+                    gates = False
+                if kd == 1 and not sf[k]["updated"][a]:
+                    gates = False
+            if gates:
+                ctx.fail("C06:dependencies-satisfied-but-none")
+        if "recorded" not in st or not st["working"]:
+            continue
+        A = st["allocated"]
+        t = st["t"]
+        # (b) unbound auto task never waits in READY on a working step
+        for i in range(n):
+            ts = tspec(M, i)
+            if ts.get("auto") and ts.get("comp") is None:
+                if A["tstate"][i] == READY or int(M.tasks[i].state_record_list[t]) == READY:
+                    ctx.fail("C06:auto-task-waits-in-ready")
+        # (c) no eligible worker stays FREE
+        for w in range(len(M.workers)):
+            if A["wstate"][w] != W_FREE:
+                continue
+            for i in range(n):
+                ts = tspec(M, i)
+                if A["tstate"][i] not in (READY, WORKING) or ts.get("auto"):
+                    continue
+                if not eligible_worker(M, w, i):
+                    continue
+                if not ts.get("nf"):
+                    if can_accept_worker(M, A, i, w):
+                        ctx.fail("C06:eligible-worker-idle")
+                    else:
+                        ctx.cover("idle-but-task-cannot-accept")
+                else:
+                    ci = ts.get("comp")
+                    single = ci is not None and sum(1 for x in M.spec["tasks"] if x.get("comp") == ci) == 1
+                    if not single:
+                        continue
+                    placed = A["cplaced"][ci]
+                    if placed is None:
+                        continue
+                    for f in range(len(M.facs)):
+                        if M.fwp[f] != placed or A["fstate"][f] != W_FREE:
+                            continue
+                        if eligible_facility(M, f, i) and can_operate(M, w, f) and can_accept_pair(M, A, i, w, f):
+                            ctx.fail("C06:eligible-pair-idle")
+        if any(A["wstate"][w] == W_FREE for w in range(len(M.workers))) and any(A["tstate"][i] in (READY, WORKING) for i in range(n)):
+            ctx.cover("free-worker-and-active-task")
+    must_finish(M, ctx, "C06")
+    ctx.nontrivial = len(full_steps(M)) >= 2
+
+
+# ----------------------------------------------------------------------------------------------- C05
+SUCCESS, FAILURE = 1, -1
+
+
+def feasible(M):
+    """Strong feasibility predicate of C05 (deliberately strong: no infeasible member is ever claimed feasible)."""
+    n = len(M.tasks)
+    if M.comps or M.facs:
+        return False
+    has_ffsf = any(kd in (2, 3) for (_, _, kd) in M.edges)
+    for i in range(n):
+        ts = tspec(M, i)
+        if ts.get("auto") or M.prog[i] == 2:
+            continue
+        elig = [w for w in range(len(M.workers)) if eligible_worker(M, w, i)]
+        if not elig:
+            return False
+        if any(M.wspec[w].get("solo") for w in range(len(M.workers))):
+            # a solo worker may block a task from ever taking further help; keep the predicate strong
+            pass
+        if has_ffsf:
+            own = [w for w in elig if not any(eligible_worker(M, w, j) for j in range(n) if j != i)]
+            if not own:
+                return False
+    return True
+
+
+def unserved_task(M):
+    """Some non-automatic unfinished task that no worker can ever serve."""
+    for i in range(len(M.tasks)):
+        ts = tspec(M, i)
+        if ts.get("auto") or M.prog[i] == 2:
+            continue
+        if not any(eligible_worker(M, w, i) for w in range(len(M.workers))):
+            return True
+    return False
+
+
+def c05(M, ctx, check_liveness=True):
+    prj = M.project
+    mt = M.run["max_time"]
+    if M.exc is not None:
+        ctx.fail("C05:simulate-raised:%s" % ctx.aborted)
+        return
+    status = int(prj.status)
+    allfin = all(int(t.state) == FINISHED for t in M.tasks)
+    if status == SUCCESS:
+        if not allfin:
+            ctx.fail("C05:success-but-unfinished-task")
+        ctx.cover("success")
+    elif status == FAILURE:
+        if allfin:
+            ctx.fail("C05:failure-but-all-finished")
+        if not prj.time >= mt:
+            ctx.fail("C05:failure-before-max-time")
+        ctx.cover("failure")
+    else:
+        ctx.fail("C05:status-not-final")
+    # no step at or beyond max_time
+    for name_len in [len(t.state_record_list) for t in M.tasks] + [len(prj.cost_list)] + [len(w.state_record_list) for w in M.workers]:
+        if name_len > 0 and not name_len <= mt:
+            ctx.fail("C05:step-at-or-beyond-max-time")
+        if name_len != prj.time:
+            ctx.fail("C05:log-length-differs-from-time")
+    if mt >= 0 and not prj.time <= mt:
+        ctx.fail("C05:time-beyond-max-time")
+    if check_liveness:
+        n = len(M.tasks)
+        bound = n + 1
+        for i in range(n):
+            bound = bound + M.work[i] + 1
+        nabs = 0
+        for a in M.run["abs"]:
+            if a >= 0:
+                nabs += 1
+        for w in M.workers:
+            for a in w.absence_time_list:
+                if a >= 0:
+                    nabs += 1
+        bound = bound + nabs
+        if feasible(M):
+            ctx.cover("feasible")
+            if mt > bound and status != SUCCESS:
+                ctx.fail("C05:feasible-project-did-not-complete")
+            if mt > bound:
+                ctx.cover("feasible-with-enough-time")
+        if unserved_task(M):
+            ctx.cover("unserved-task")
+            if status == SUCCESS:
+                ctx.fail("C05:success-with-unserved-task")
+    ctx.nontrivial = prj.time >= 1
